@@ -33,7 +33,7 @@ LIB_EXC_BASES = {
 # dotted callee -> exception classes it raises on data (first positional argument not a literal)
 LIB_CALLS = {
     "int": {"ValueError"},
-    "float": {"ValueError"},
+    "float": {"ValueError"},  # + OverflowError when the argument may be an int (see _lib)
     "re.compile": {"error", "OverflowError", "RecursionError"},
     "json.loads": {"JSONDecodeError", "RecursionError"},
     "json.load": {"JSONDecodeError", "RecursionError", "OSError"},
@@ -194,6 +194,8 @@ class ExcFlow:
             fi = fx.fi
             for call, stack in fx.calls:
                 d = self.res.dotted_of(fi, fi.module, call.func)
+                if d and d.startswith("builtins."):
+                    d = d[len("builtins."):]
                 raises: set[str] = set()
                 if d in LIB_CALLS:
                     if call.args and isinstance(call.args[0], ast.Constant):
@@ -203,6 +205,12 @@ class ExcFlow:
                     if d == "re.compile" and (fi.fqn, ast.unparse(call.args[0]) if call.args else "") in self.const_regex_args:
                         continue
                     raises = LIB_CALLS[d]
+                    if d == "float" and call.args and isinstance(call.args[0], ast.Name):
+                        # float(<str>) overflows to inf, float(<int>) raises OverflowError: modelled where the function itself
+                        # treats the argument as a possible int (an isinstance test naming int on it)
+                        a0 = call.args[0].id
+                        if any(isinstance(t, ast.Call) and isinstance(t.func, ast.Name) and t.func.id == "isinstance" and len(t.args) == 2 and isinstance(t.args[0], ast.Name) and t.args[0].id == a0 and "int" in ast.unparse(t.args[1]).replace("print", "") for t in ast.walk(fi.node)):
+                            raises = raises | {"OverflowError"}
                 elif isinstance(call.func, ast.Attribute) and call.func.attr in LIB_METHODS and not any(c.kind == "repo" for c in self.res.resolve_call(fi, call)):
                     raises = LIB_METHODS[call.func.attr]
                 for e in raises:
